@@ -99,7 +99,9 @@ func (s *collectSink) Receive(c pb.Chunk) (bool, bool) {
 		return false, false
 	}
 	c.DeploymentId = s.did
-	c.Data = append([]byte(nil), c.Data...)
+	// the chunk is kept as handed over, without copying its data: the real sink (transport job)
+	// queues chunks in a channel and sends them later from another goroutine, so a chunk must
+	// not share its buffer with anything the writer touches afterwards
 	s.chunks = append(s.chunks, c)
 	return true, false
 }
